@@ -69,6 +69,8 @@ def _case(draw):
                "b": float(draw(st.integers(-4, 4))), "x": 0.0}
         if draw(st.integers(0, 7)) == 0:
             beh.pop("b")
+        if draw(st.integers(0, 7)) == 0:
+            alts = []           # zero alternatives: the empty union contains nothing
         return {"op": op, "alts": alts, "beh": beh, "rel": sorted(set(rel))}
     if op == "le":
         a1, r1 = draw(_family("a", ["b"], disjoint=False))
@@ -211,5 +213,18 @@ def run_case(case):
             if pt is not None:
                 viol = {"what": "a point of both operands' %s is missing from the merged %s" % (part, part),
                         "sig": {"kind": "compound-merge-too-small", "part": part}, "detail": {"point": exact.pt_json(pt), "result": r_alts}}
+    if viol is None:
+        # membership queries on the merged lists (possibly with zero alternatives) agree with their alternatives
+        for part, nl in (("assumptions", m.a), ("guarantees", m.g)):
+            alts = [env.tl_data(t) for t in nl.nested_termlist]
+            for pt in ({"a": 0.0, "b": 0.0, "x": 0.0}, {"a": float(case["a1"][0][1][1]) * -1, "b": 1.0, "x": float(case["g1"][0][0][1])}):
+                try:
+                    got = nl.contains_behavior({env.Var(k): v for k, v in pt.items()})
+                except ValueError:
+                    continue
+                exp = any(exact.holds_exact(a, {k: F(v) for k, v in pt.items()}) for a in alts)
+                if bool(got) != exp:
+                    viol = {"what": "merged %s (%d alternatives): contains_behavior(%s) answered %s, exact: %s" % (part, len(alts), pt, got, exp),
+                            "sig": {"kind": "wrong-nested-membership", "expected": exp, "alternatives": min(len(alts), 2)}, "detail": {}}
     nontrivial = max(len(case["a1"]), len(case["a2"]), len(case["g1"]), len(case["g2"])) >= 2
     return {"viol": viol, "nontrivial": nontrivial, "labels": labels, "outcome": "judged"}
